@@ -183,7 +183,8 @@ func (c *Ctx) GenFileset(o GenOpts) Fileset {
 				e.Content[j] = byte(c.Rand())
 			}
 		case 'L':
-			e.Link = []string{"a", "/etc/passwd", "../x", "..", "/", "dangling/\xff", "./././", strings.Repeat("t", 150)}[c.Intn(8)]
+			e.Link = []string{"a", "/etc/passwd", "../x", "..", "/", "dangling/\xff", "./././", strings.Repeat("t", 150),
+				"trailing space ", " leading", "\ttabbed", "newline\n", "a b\r"}[c.Intn(13)]
 		case 'D', 'c':
 			e.Maj, e.Min = int64(c.Intn(256)), int64(c.Intn(256))
 			if c.Chance(1, 4) {
